@@ -60,8 +60,15 @@ impl<T: Types> StateMachine<WALRecord<T>> for RaftLogStateMachine<T> {
             }
             WALRecord::Commit(_committed) => {}
             WALRecord::TruncateAfter(log_id) => {
-                let index = T::next_log_index(log_id.as_ref());
-                self.log.split_off(&index);
+                // Remove the entries after `log_id`; there is none after
+                // index `u64::MAX`.
+                let next = match log_id {
+                    Some(log_id) => T::log_index(log_id).checked_add(1),
+                    None => Some(0),
+                };
+                if let Some(index) = next {
+                    self.log.split_off(&index);
+                }
                 if let Some(log_id) = log_id {
                     self.payload_cache.write().unwrap().truncate_after(log_id);
                 } else {
@@ -69,9 +76,12 @@ impl<T: Types> StateMachine<WALRecord<T>> for RaftLogStateMachine<T> {
                 }
             }
             WALRecord::PurgeUpto(log_id) => {
-                let index = T::next_log_index(Some(log_id));
-                let b = self.log.split_off(&index);
-                self.log = b;
+                // Keep only the entries after `log_id`; there is none after
+                // index `u64::MAX`.
+                self.log = match T::log_index(log_id).checked_add(1) {
+                    Some(index) => self.log.split_off(&index),
+                    None => BTreeMap::new(),
+                };
 
                 self.payload_cache.write().unwrap().purge_upto(log_id);
             }
